@@ -4,6 +4,8 @@ mod configs;
 mod guardmem;
 mod props;
 mod rig;
+#[cfg(feature = "alloc")]
+mod scale;
 mod special;
 use hvcore::{drive, monalloc, rigapi, util};
 
